@@ -2601,6 +2601,10 @@ class Controller:
                 hci.HCI_ErrorCode.INVALID_COMMAND_PARAMETERS_ERROR, command.op_code
             )
 
+        # Answer the command first: the host must get its Command Status even if the
+        # peer can no longer be reached
+        self._send_hci_command_status(hci.HCI_COMMAND_STATUS_PENDING, command.op_code)
+
         connection.send_ll_control_pdu(
             ll.EncReq(
                 rand=command.random_number,
@@ -2608,8 +2612,6 @@ class Controller:
                 ltk=command.long_term_key,
             ),
         )
-
-        self._send_hci_command_status(hci.HCI_COMMAND_STATUS_PENDING, command.op_code)
 
         # TODO: Handle authentication
         self.on_le_encrypted(connection)
